@@ -65,7 +65,7 @@ class UpgradedAnnotation(metaclass=abc.ABCMeta):
 
         if has_feature is None:
             return EmptyAnnotation
-        elif has_feature:
+        elif has_feature and isinstance(raw_annotation, str):
             return _PostponedAnnotation(raw_annotation, function)
         else:
             return _PreEvaluatedAnnotation(raw_annotation)
